@@ -71,8 +71,13 @@ fn plan_c01(thorough: bool) -> Plan {
         a_full.push(("rw", Some(1333)));
     }
     let a_full = acts(&a_full);
-    let (d, b) = if thorough { (3, 3) } else { (2, 2) };
-    cases.extend(enum_commit_histories(d, 6, b, &a_full, &mk_case("empty", vec!["U1"], &cfg, "values", false)));
+    if thorough {
+        // 3 commits with ≤ 2 deviations, and 2 commits with ≤ 3 (sized to finish within the budget)
+        cases.extend(enum_commit_histories(3, 6, 2, &a_full, &mk_case("empty", vec!["U1"], &cfg, "values", false)));
+        cases.extend(enum_commit_histories(2, 6, 3, &a_full, &mk_case("empty", vec!["U1"], &cfg, "values", false)));
+    } else {
+        cases.extend(enum_commit_histories(2, 6, 2, &a_full, &mk_case("empty", vec!["U1"], &cfg, "values", false)));
+    }
     // (b) all single batches over four keys with a reduced alphabet, then one follow-up batch
     let a_small = acts(&[("w", Some(1)), ("w", Some(1333)), ("d", None), ("rw", Some(40))]);
     cases.extend(enum_commit_histories(1, 4, 4, &a_small, &mk_case("empty", vec!["U4"], &cfg, "values", false)));
@@ -304,7 +309,7 @@ pub fn crash_histories(thorough: bool) -> Vec<(Value, usize, u64)> {
     // (a) deviation-bounded commit histories, traced op = the last commit
     let a = acts(&[("w", Some(1)), ("w", Some(1333)), ("d", None)]);
     for (seed, uni) in [("empty", vec!["U4"]), ("leaf", vec!["seed:0,2,5", "CL0:0-1"]), ("cl12x20", vec!["CL12:18-22"])] {
-        let b = if thorough { 3 } else { 1 };
+        let b = if thorough { 2 } else { 1 };
         let d = if thorough { 3 } else { 2 };
         let cases = enum_commit_histories(d, 4, b, &a, &|ops, b| json!({"ops": ops, "b": b}));
         for c in cases {
